@@ -1206,6 +1206,23 @@ func init() {
 		l := lits[g.C.Choose(len(lits))]
 		return BinOp{"+", g.Gen("string", env, fuel-1, PosExpr), l}
 	}})
+	// 45 a statement whose NON-UNIT value is discarded (fc's own sources do that): a call, a match, an if/else
+	add(prod{ext: true, name: "seq-discard", block: true, app: any_, mk: func(g *Gen, t Type, env Env2, fuel, pos int) Expr {
+		f := g.split(fuel-1, 2)
+		var st Expr
+		switch g.C.Choose(4) {
+		case 0:
+			st = call("add", g.Gen("int", env, f[0], PosExpr), trI(g.nextInt()))
+		case 1:
+			st = Match{Target: g.Steer("U", env, f[0]), Arms: []Arm{{"I", "i", B(call("add", Var{"i"}, trI(g.nextInt())))}, {"S", "_", B(trI(g.nextInt()))}, {"N", "", B(trI(g.nextInt()))}}}
+		case 2:
+			st = If{Cond: g.Steer("bool", env, f[0]), Then: B(trI(g.nextInt())), Else: B(trI(g.nextInt()))}
+		case 3:
+			st = SMatch{Target: trS("s1"), Lits: []SArm{{"s1", B(call("strings.Length", g.Gen("string", env, f[0], PosExpr)))}}, Last: B(trI(g.nextInt()))}
+		}
+		body := g.blk(t, env, f[1])
+		return &Block{Stmts: append([]Stmt{ExprStmt{st}}, body.Stmts...), Final: body.Final}
+	}})
 	// 25 sequencing
 	add(prod{name: "seq", rep: true, tiny: true, block: true, app: any_, mk: func(g *Gen, t Type, env Env2, fuel, pos int) Expr {
 		f := g.split(fuel-1, 2)
